@@ -461,43 +461,75 @@ func c18PolicyJob() Job {
 		sels := []*metav1.LabelSelector{{}, sel("app", "web"), exprSel}
 		typess := [][]networkv1.PolicyType{nil, tIn, tEg, tBoth}
 		n := 0
+		// one-rule policies over the full menus, then two-rule policies: every rule shape before and after each of four second rules
+		type polCase struct {
+			ps     *metav1.LabelSelector
+			ty     []networkv1.PolicyType
+			in     []networkv1.NetworkPolicyIngressRule
+			eg     []networkv1.NetworkPolicyEgressRule
+			suffix string
+		}
+		var cases []polCase
 		for _, ps := range sels {
 			for _, ty := range typess {
 				for _, pe := range peers {
 					for _, po := range portss {
-						n++
-						if time.Now().After(deadline) || c.hangs >= 2 {
-							c.r.exhausted = false
-							return c.r.toScen(name, t0, nil)
-						}
-						pol := &networkv1.NetworkPolicy{ObjectMeta: metav1.ObjectMeta{Name: fmt.Sprintf("p%d", n), Namespace: "ns1"},
-							Spec: networkv1.NetworkPolicySpec{PodSelector: *ps, PolicyTypes: ty,
-								Ingress: []networkv1.NetworkPolicyIngressRule{{From: pe, Ports: po}}, Egress: []networkv1.NetworkPolicyEgressRule{{To: pe, Ports: po}}}}
-						desc := fmt.Sprintf("policy{selector=%v types=%v peers=%s ports=%s}", ps, ty, js(pe), js(po))
-						k := nfsim.New()
-						w := newPolicyWorld(k)
-						cl := mkCluster([]string{"web", "db", "cli2", "noip"}, []string{"in-podsel"})
-						cl.Policies = append(cl.Policies, pol)
-						w.setCluster(cl)
-						ok := c.guard("policy", "Run "+desc, func() { w.pm.Run() })
-						ok = ok && c.guard("policy", "AddPolicy/UpdatePolicy "+desc, func() { _ = w.pm.AddPolicy(pol); _ = w.pm.UpdatePolicy(pol, pol) })
-						ok = ok && c.guard("policy", "pod events "+desc, func() {
-							for _, p := range cl.Pods {
-								po := w.podObj(p)
-								_ = w.pm.UpdatePod(po, po)
-								_ = w.pm.DeletePod(po)
-							}
-						})
-						w.setCluster(mkCluster([]string{"web"}, nil))
-						ok = ok && c.guard("policy", "DeletePolicy + second Run "+desc, func() { _ = w.pm.DeletePolicy(pol); w.pm.Run() })
-						c.r.distinct[hashOf(desc)] = true
-						if len(c.r.samples) < 3 && n%211 == 1 {
-							c.r.samples = append(c.r.samples, desc)
-						}
-						_ = ok
+						cases = append(cases, polCase{ps, ty, []networkv1.NetworkPolicyIngressRule{{From: pe, Ports: po}}, []networkv1.NetworkPolicyEgressRule{{To: pe, Ports: po}},
+							fmt.Sprintf("peers=%s ports=%s", js(pe), js(po))})
 					}
 				}
 			}
+		}
+		second := []struct {
+			pe []networkv1.NetworkPolicyPeer
+			po []networkv1.NetworkPolicyPort
+		}{{peers[2], nil}, {peers[3], portss[4]}, {peers[6], nil}, {nil, portss[4]}}
+		for _, pe := range peers {
+			for _, po := range portss {
+				for _, s2 := range second {
+					for _, order := range []int{0, 1} {
+						in := []networkv1.NetworkPolicyIngressRule{{From: pe, Ports: po}, {From: s2.pe, Ports: s2.po}}
+						eg := []networkv1.NetworkPolicyEgressRule{{To: pe, Ports: po}, {To: s2.pe, Ports: s2.po}}
+						if order == 1 {
+							in[0], in[1] = in[1], in[0]
+							eg[0], eg[1] = eg[1], eg[0]
+						}
+						cases = append(cases, polCase{sels[1], tBoth, in, eg, fmt.Sprintf("rules=%s", js(in))})
+					}
+				}
+			}
+		}
+		for _, pc := range cases {
+			ps, ty := pc.ps, pc.ty
+			n++
+			if time.Now().After(deadline) || c.hangs >= 2 {
+				c.r.exhausted = false
+				return c.r.toScen(name, t0, nil)
+			}
+			pol := &networkv1.NetworkPolicy{ObjectMeta: metav1.ObjectMeta{Name: fmt.Sprintf("p%d", n), Namespace: "ns1"},
+				Spec: networkv1.NetworkPolicySpec{PodSelector: *ps, PolicyTypes: ty, Ingress: pc.in, Egress: pc.eg}}
+			desc := fmt.Sprintf("policy{selector=%v types=%v %s}", ps, ty, pc.suffix)
+			k := nfsim.New()
+			w := newPolicyWorld(k)
+			cl := mkCluster([]string{"web", "db", "cli2", "noip"}, []string{"in-podsel"})
+			cl.Policies = append(cl.Policies, pol)
+			w.setCluster(cl)
+			ok := c.guard("policy", "Run "+desc, func() { w.pm.Run() })
+			ok = ok && c.guard("policy", "AddPolicy/UpdatePolicy "+desc, func() { _ = w.pm.AddPolicy(pol); _ = w.pm.UpdatePolicy(pol, pol) })
+			ok = ok && c.guard("policy", "pod events "+desc, func() {
+				for _, p := range cl.Pods {
+					po := w.podObj(p)
+					_ = w.pm.UpdatePod(po, po)
+					_ = w.pm.DeletePod(po)
+				}
+			})
+			w.setCluster(mkCluster([]string{"web"}, nil))
+			ok = ok && c.guard("policy", "DeletePolicy + second Run "+desc, func() { _ = w.pm.DeletePolicy(pol); w.pm.Run() })
+			c.r.distinct[hashOf(desc)] = true
+			if len(c.r.samples) < 3 && n%211 == 1 {
+				c.r.samples = append(c.r.samples, desc)
+			}
+			_ = ok
 		}
 		return c.r.toScen(name, t0, map[string]int{"policies": n})
 	}}
@@ -510,7 +542,7 @@ func js(v interface{}) string {
 
 func init() {
 	register(&Property{ID: "C18", Level: "exploration", QuickS: 200, ThoroughS: 900,
-		Assume: []string{"inputs are enumerated from boundary-heavy menus (token level), not arbitrary byte strings: 22 args annotations x 8 owner shapes x 5 pod names x 4 policies x 3 pools x 2 nodes; 14 queries; 31 HTTP bodies; 20 configuration texts; ~70 raw CNI request bodies and 160 pod annotation combinations; 1152 valid NetworkPolicies",
+		Assume: []string{"inputs are enumerated from boundary-heavy menus (token level), not arbitrary byte strings: 22 args annotations x 8 owner shapes x 5 pod names x 4 policies x 3 pools x 2 nodes; 14 queries; 31 HTTP bodies; 20 configuration texts; ~70 raw CNI request bodies and 160 pod annotation combinations; 1152 one-rule and 768 two-rule valid NetworkPolicies",
 			"watchdog: a call that has not returned after 10 s counts as a hang (the calls take microseconds to milliseconds); ranges covering more than 2^16 addresses are not in the alphabet (they are slow, not unbounded)",
 			"a pod that does not exist makes the daemon's ADD wait 5 s by design; that case is exercised once"},
 		Rule: "every input of every surface is fed to the real entry point (Filter, Preempt, Bind, UpdatePod, DeletePod/unbind; GET/POST/DELETE of the IPAM API; configuration reload; the daemon's /cni handler; PolicyManager Run and event handlers) under a watchdog; every operation of every history of <= 3 (4) lifecycle operations per workload class is run again with its k-th API call failing, then the same instance must answer a Filter per pod, the pending events, a resync and a pool request; every schedule (preemption-bounded, writer-preferring RWMutex model) of every pair of galaxy-ipam entry points must end without deadlock or panic; " +
